@@ -1,5 +1,6 @@
 from __future__ import annotations
 
+import hashlib
 import re
 import sys
 import unicodedata
@@ -75,17 +76,20 @@ def _codegen(name: str, model: pysbml.transform.data.Model) -> Path:
                 fn_name=key, expr=der, args=free_symbols(der)
             )
 
-    path = default_tmp_dir(None, remove_old_cache=False) / f"{name}.py"
+    source = generate_mxlpy_code_from_symbolic_repr(
+        sym,
+        imports=[
+            "import math",
+            "import scipy",
+        ],
+    )
+    # One file (and module) per generated source: documents with the same file
+    # name must neither overwrite each other's module, nor pick up the cached
+    # byte code or the source lines of another document
+    digest = hashlib.sha256(source.encode()).hexdigest()[:16]
+    path = default_tmp_dir(None, remove_old_cache=False) / f"{name}_{digest}.py"
     with path.open("w+") as f:
-        f.write(
-            generate_mxlpy_code_from_symbolic_repr(
-                sym,
-                imports=[
-                    "import math",
-                    "import scipy",
-                ],
-            )
-        )
+        f.write(source)
     return path
 
 
@@ -121,5 +125,6 @@ def read(file: Path) -> Model:
     """
     model = pysbml.load_and_transform_model(file)
     out_name = valid_filename(file.stem)
-    model_fn = import_from_path(out_name, _codegen(out_name, model))
+    path = _codegen(out_name, model)
+    model_fn = import_from_path(path.stem, path)
     return model_fn()
